@@ -233,6 +233,11 @@ class Report:
         """key: dict of matching fields identifying the failing input / call site / history."""
         self.violations.append({"key": key, "what": what, "detail": detail})
 
+    def unknown(self):
+        """the violations recorded so far that no known-findings entry matches"""
+        known = [k for k in load_known() if k.get("property") == self.prop and k.get("status") == "known"]
+        return [v for v in self.violations if not any(all(v["key"].get(f) == val for f, val in k["key"].items()) for k in known)]
+
     def finish(self):
         known = [k for k in load_known() if k.get("property") == self.prop and k.get("status") == "known"]
         real = []
